@@ -1,4 +1,5 @@
 import Replicon.Proofs.Server
+import Replicon.Proofs.JointAuth
 import Replicon.Proofs.ProtocolHash
 /-
 C07 — Unauthorized clients get no replication and only independent events.
@@ -52,5 +53,29 @@ theorem C07_protocol_check (server client : Nat) :
   by_cases h : client = server
   · simp [h]
   · simp [h]
+
+/-- Over ALL histories of the joint server model (`Model/Joint.lean`): in the state any history
+of operations leads to — however long a client has been connected without authorization and
+whatever happened on the server — the next frame hands the transport update / mutate messages
+and dependent (non-independent) events only for clients that are authorized in that state. -/
+theorem C07_history (ops : List Joint.Op) (ticked : Bool) (ms : Nat) (parts : Nat → List (List Nat)) :
+    (∀ c o, (c, o) ∈ (Joint.frame (Joint.run {} ops).1 ticked ms parts).2.1 →
+      ∃ cl, (c, cl) ∈ (Joint.run {} ops).1.srv.clients ∧ cl.authorized = true) ∧
+    (∀ o ∈ (Joint.frame (Joint.run {} ops).1 ticked ms parts).2.2, o.stamp.isSome →
+      ∃ cl, (o.client, cl) ∈ (Joint.run {} ops).1.srv.clients ∧ cl.authorized = true) :=
+  ⟨fun c o h => Joint.frame_replication_authorized _ ticked ms parts c o h,
+   fun o ho hs => Joint.frame_events_authorized _ ticked ms parts o ho hs⟩
+
+/-- Non-vacuity: the same history — while client 1 is connected without authorization three
+replication runs send it nothing; the run after its authorization sends it the whole state. -/
+example :
+    let s0 : Joint.St := { srv := { rates := [(0, .every), (1, .every)] } }
+    let ops : List Joint.Op :=
+      [.start, .connect 0 true, .connect 1 false, .spawn 5 true [(0, 7)], .frame true 10 (fun _ => []),
+       .frame true 10 (fun _ => []), .insert 5 1 9, .frame true 10 (fun _ => []), .authorize 1, .frame true 10 (fun _ => [])]
+    ((Joint.run s0 ops).2.map fun fr => fr.1.map fun o => (o.1, o.2.update.map (·.changes.map fun m => (m.ent, m.comps)))) =
+      [[], [], [], [], [(0, some [(5, [(0, 7)])])], [(0, none)], [], [(0, some [(5, [(1, 9)])])], [],
+       [(1, some [(5, [(0, 7), (1, 9)])]), (0, none)]] := by
+  rfl
 
 end Replicon.C07
